@@ -263,7 +263,11 @@ impl Indexable for ast::Defvar {
     type Output = ();
     fn index(&self, ctx: &mut IndexCtx) -> Option<Self::Output> {
         let (name, define_loc) = utils::identifier(&self.name()?, ctx)?;
-        let typ = self.value()?.index(ctx)?;
+        // the variable exists even when the type of its value cannot be inferred (e.g. `!cond`)
+        let typ = self
+            .value()
+            .and_then(|it| it.index(ctx))
+            .unwrap_or(Type::Any);
         let variable = Variable::new(name, typ, VariableKind::Defvar, define_loc);
         ctx.scopes.add_variable(&mut ctx.symbol_map, variable);
         None
@@ -293,7 +297,11 @@ impl Indexable for ast::ForeachIterator {
     type Output = (EcoString, VariableId);
     fn index(&self, ctx: &mut IndexCtx) -> Option<Self::Output> {
         let (name, define_loc) = utils::identifier(&self.name()?, ctx)?;
-        let typ = self.init()?.index(ctx)?;
+        // the iterator variable exists even when its element type cannot be inferred
+        let typ = self
+            .init()
+            .and_then(|it| it.index(ctx))
+            .unwrap_or(Type::Any);
 
         let variable = Variable::new(name.clone(), typ, VariableKind::Foreach, define_loc);
         let variable_id = ctx.symbol_map.add_variable(variable);
